@@ -365,20 +365,21 @@ def run(ctx: Any) -> None:
             case("genuine", "k5", m, cur, call, IDENTS[ii], T0 + 3)
 
     # 1. every single-bit flip of the token text
-    for app, ii, m in base_sets:
+    for nb, (app, ii, m) in enumerate(base_sets):
         cur, call = streams[(app, ii, m)]
-        for i in range(len(cur)):
+        stride = 4 if (quick and nb > 0) else 1  # quick: every position of the first pair of tokens, every 4th of the second
+        for i in range(0, len(cur), stride):
             for bit in range(8):
-                case("flip-text-cursor", app, m, _flip_text(cur, i, bit), call, IDENTS[ii], T0 + 1, base=cur)
-        for i in range(len(call)):
+                case("flip-text-cursor", app, m, _flip_text(cur, i, bit), call, IDENTS[ii], T0 + 1, base=cur, cur_sym=("TFlip", cur, i, bit))
+        for i in range(0, len(call), stride):
             for bit in range(8):
-                case("flip-text-call", app, m, cur, _flip_text(call, i, bit), IDENTS[ii], T0 + 1, base=call)
+                case("flip-text-call", app, m, cur, _flip_text(call, i, bit), IDENTS[ii], T0 + 1, base=call, call_sym=("TFlip", call, i, bit))
     # ... cursor flips against the warm app too (the cursor is opened before the cache is consulted)
     cur, call = streams[("warm", AUTHI, "prod")]
     step = 5 if quick else 1
     for i in range(0, len(cur), step):
         for bit in range(8):
-            case("flip-text-cursor", "warm", "prod", _flip_text(cur, i, bit), call, IDENTS[AUTHI], T0 + 1, base=cur)
+            case("flip-text-cursor", "warm", "prod", _flip_text(cur, i, bit), call, IDENTS[AUTHI], T0 + 1, base=cur, cur_sym=("TFlip", cur, i, bit))
 
     # 2. every single-bit flip of the sealed envelope (canonical re-encoding): version byte, nonce, ciphertext, tag
     for app, ii, m in base_sets[: (1 if quick else None)]:
@@ -400,11 +401,11 @@ def run(ctx: Any) -> None:
     for app, ii, m in base_sets[: (1 if quick else None)]:
         cur, call = streams[(app, ii, m)]
         for which, tok in (("cursor", cur), ("call", call)):
-            def put(t: bytes, cls: str) -> None:
+            def put(t: bytes, cls: str, sym: Any = None) -> None:
                 if which == "cursor":
-                    case(cls + "-cursor", app, m, t, call, IDENTS[ii], T0 + 1, base=tok)
+                    case(cls + "-cursor", app, m, t, call, IDENTS[ii], T0 + 1, base=tok, cur_sym=sym)
                 else:
-                    case(cls + "-call", app, m, cur, t, IDENTS[ii], T0 + 1, base=tok)
+                    case(cls + "-call", app, m, cur, t, IDENTS[ii], T0 + 1, base=tok, call_sym=sym)
 
             for i in range(len(tok)):
                 for _ in range(1 if quick else 4):
@@ -412,9 +413,9 @@ def run(ctx: Any) -> None:
                     if v != tok[i]:
                         b = bytearray(tok)
                         b[i] = v
-                        put(bytes(b), "subst")
+                        put(bytes(b), "subst", ("TSet", tok, i, v))
             for n in range(len(tok)):
-                put(tok[:n], "truncate-text")
+                put(tok[:n], "truncate-text", ("TTrunc", tok, n))
             raw = base64.b64decode(tok)
             for n in range(0, len(raw), 1 if not quick else 3):
                 put(base64.b64encode(raw[:n]), "truncate-raw")
@@ -548,7 +549,7 @@ def run(ctx: Any) -> None:
                 case("clock", "warm", m, wcur, wcall, IDENTS[ii], T0 + d)
 
     # 10. well-sealed envelopes around malformed payloads (a key holder with a bug / an older format)
-    for ii, m in ((AUTHI, "ex"), (0, "prod")):
+    for ii, m in ((AUTHI, "ex"),) if quick else ((AUTHI, "ex"), (0, "prod")):
         ident = IDENTS[ii]
         cur, call = streams[("cold", ii, m)]
         for kind, tok in (("cursor", cur), ("call", call)):
@@ -702,46 +703,68 @@ def run(ctx: Any) -> None:
     def lit(b: bytes) -> str:
         return "[" + ";".join(str(x) for x in b) + "]"
 
-    defs: list[str] = []
-
     def ref(b: bytes) -> str:
-        if len(b) < 24:
-            return lit(b)
-        if b not in names:
-            names[b] = f"tk{len(names)}"
-            defs.append(f"Definition {names[b]} : list N := {lit(b)}.")
-        return names[b]
+        return names[b] if b in names else lit(b)
 
-    base_tokens: set[bytes] = set()
-    for f in W.minted.values():
-        base_tokens.add(f["text"])
-    for key, _, _ in W.app_cfg.values():
-        base_tokens.add(key)
-    for b in sorted(base_tokens):
-        ref(b)
-    rows = ";\n".join(f"({ref(k)}, {lit(a)}, {lit(n)}, {lit(body)}, {lit(p)})" for (k, a, n, body), p in W.aead_rows.items())
-    zrows = ";\n".join(f"({lit(z)}, {lit(p)})" for z, p in W.zstd_rows.items())
-    srows = ";\n".join(f"({lit(k)}, {lit(d)})" for k, d in W.sha_rows.items())
-    crows = ";\n".join(f"({lit(cid)}, {lit(ik)})" for cid, ik in sorted(W.cache_rows))
-    tables = (
-        "From Coq Require Import List NArith ZArith Bool.\nFrom VGI Require Import Bytes Layout M_Token Corr.\nImport ListNotations.\nOpen Scope N_scope.\n"
-        + "\n".join(defs)
-        + f"\nDefinition T_aead : list aead_row := [\n{rows}].\nDefinition T_zstd : list (list N * list N) := [\n{zrows}].\n"
-        + f"Definition T_sha : list (list N * list N) := [\n{srows}].\nDefinition T_cache : list (list N * list N) := [\n{crows}].\n"
-        + "Definition eqb3 (x y : N * N * list N) : bool := let '(a, b, c) := x in let '(a', b', c') := y in (a =? a') && (b =? b') && Corr.bytes_eqb c c'.\n"
-    )
-    # the tables are compiled once (a .vo in a scratch directory); every shard of cases only loads them
+    # the tables are compiled once, in parallel chunks (.vo files in a scratch directory); every shard of cases only loads them
     import shutil
     import subprocess
 
     from vlib.core import scratch_dir
 
+    imports = "From Coq Require Import List NArith ZArith Bool.\nFrom VGI Require Import Bytes Layout M_Token Corr.\nImport ListNotations.\nOpen Scope N_scope.\n"
+    nchunks = 8
+    chunk_defs: list[list[str]] = [[] for _ in range(nchunks)]
+    chunk_rows: list[list[str]] = [[] for _ in range(nchunks)]
+
+    def define(b: bytes, chunk: int) -> str:
+        if b not in names:
+            names[b] = f"tk{len(names)}"
+            chunk_defs[chunk].append(f"Definition {names[b]} : list N := {lit(b)}.")
+        return names[b]
+
+    for key, _, _ in W.app_cfg.values():
+        if len(key) >= 24:
+            define(key, 0)
+    for n, (raw, f) in enumerate(sorted(W.minted.items())):
+        ch = n % nchunks
+        define(f["text"], ch)
+    by_env = {(nonce, body): (k, a, p) for (k, a, nonce, body), p in W.aead_rows.items()}
+    for n, (raw, f) in enumerate(sorted(W.minted.items())):
+        ch = n % nchunks
+        k, a, p = by_env[(raw[1:25], raw[25:])]
+        chunk_rows[ch].append(f"({ref(k)}, {lit(a)}, {lit(raw[1:25])}, {lit(raw[25:])}, {lit(p)})")
+    zrows = ";\n".join(f"({lit(z)}, {lit(p)})" for z, p in W.zstd_rows.items())
+    srows = ";\n".join(f"({lit(k)}, {lit(d)})" for k, d in W.sha_rows.items())
+    crows = ";\n".join(f"({lit(cid)}, {lit(ik)})" for cid, ik in sorted(W.cache_rows))
     tdir = scratch_dir()
     try:
+        procs = []
+        for ch in range(nchunks):
+            dep = "" if ch == 0 else "From C12T Require Import C12T0.\n"
+            text = imports + dep + "\n".join(chunk_defs[ch]) + f"\nDefinition T_aead_{ch} : list aead_row := [\n" + ";\n".join(chunk_rows[ch]) + "].\n"
+            (tdir / f"C12T{ch}.v").write_text(text)
+        cmd = ["timeout", "900", "coqc", "-noglob", "-R", str(ctx.bdir), "VGI", "-Q", str(tdir), "C12T", "-w", "-all"]
+        pr0 = subprocess.run(cmd + ["C12T0.v"], cwd=tdir, capture_output=True, text=True)  # holds the keys the others refer to
+        procs = [subprocess.Popen(cmd + [f"C12T{ch}.v"], cwd=tdir, stdout=subprocess.PIPE, stderr=subprocess.STDOUT, text=True) for ch in range(1, nchunks)]
+        outs = [pr0.stdout + pr0.stderr] + [p.communicate()[0] for p in procs]
+        tables = (
+            imports
+            + "".join(f"From C12T Require Export C12T{ch}.\n" for ch in range(nchunks))
+            + "Definition T_aead : list aead_row := " + " ++ ".join(f"T_aead_{ch}" for ch in range(nchunks)) + ".\n"
+            + f"Definition T_zstd : list (list N * list N) := [\n{zrows}].\n"
+            + f"Definition T_sha : list (list N * list N) := [\n{srows}].\nDefinition T_cache : list (list N * list N) := [\n{crows}].\n"
+            + "Inductive tokx := TLit (b : list N) | TFlip (b : list N) (i bit : N) | TSet (b : list N) (i v : N) | TTrunc (b : list N) (n : N).\n"
+            + "Definition upd (b : list N) (i : N) (f : N -> N) : list N := firstn (N.to_nat i) b ++ match skipn (N.to_nat i) b with [] => [] | x :: r => f x :: r end.\n"
+            + "Definition tx (t : tokx) : list N := match t with TLit b => b | TFlip b i bit => upd b i (fun x => N.lxor x (N.shiftl 1 bit)) | TSet b i v => upd b i (fun _ => v) | TTrunc b n => firstn (N.to_nat n) b end.\n"
+            + "Definition case_x := ((list N * Z * Z * Z) * (bool * option (list N * list N) * bool) * (option tokx * option tokx))%type.\n"
+            + "Definition run_x (canonical : bool) (c : case_x) := let '(a, b, (cu, ca)) := c in run_case T_aead T_zstd T_sha T_cache canonical (a, b, (option_map tx cu, option_map tx ca)).\n"
+            + "Definition eqb3 (x y : N * N * list N) : bool := let '(a, b, c) := x in let '(a', b', c') := y in (a =? a') && (b =? b') && Corr.bytes_eqb c c'.\n"
+        )
         (tdir / "C12Tables.v").write_text(tables)
-        pr = subprocess.run(["timeout", "600", "coqc", "-R", str(ctx.bdir), "VGI", "-Q", str(tdir), "C12T", "-w", "-all", "C12Tables.v"], cwd=tdir, capture_output=True, text=True)
-        if pr.returncode != 0:
-            ctx.obligation("correspondence:M_Token.run_case", "correspondence", False, "tables did not compile: " + (pr.stdout + pr.stderr)[-1500:])
+        pr = subprocess.run(cmd + ["C12Tables.v"], cwd=tdir, capture_output=True, text=True)
+        if pr.returncode != 0 or pr0.returncode != 0 or any(p.returncode != 0 for p in procs):
+            ctx.obligation("correspondence:M_Token.run_case", "correspondence", False, "tables did not compile: " + ("\n".join(outs) + pr.stdout + pr.stderr)[-1500:])
             return
         header = (
             f'Add LoadPath "{tdir}" as C12T.\nFrom Coq Require Import List NArith ZArith Bool.\nFrom VGI Require Import Bytes Layout M_Token G_Token Corr.\n'
@@ -763,21 +786,37 @@ def run(ctx: Any) -> None:
 def _model_side(ctx: Any, W: Any, cases: list[dict[str, Any]], results: list[tuple[int, int, list[int]]], names: dict[bytes, str], lit: Any, ref: Any, header: str) -> None:
     from vlib.coqterm import cZ, cbool, copt
 
+    def apply_sym(sym: Any) -> bytes:
+        op, b, i, *rest = sym
+        if op == "TFlip":
+            return _flip_text(b, i, rest[0])
+        if op == "TSet":
+            return b[:i] + bytes([rest[0]]) + b[i + 1 :]
+        return b[:i]
+
+    wrong = [c for c in cases for k, t in (("cur_sym", "cur"), ("call_sym", "call")) if c.get(k) is not None and apply_sym(c[k]) != c[t]]
+    ctx.obligation("harness:symbolic-mutations-are-the-presented-texts", "harness", not wrong, f"{len(wrong)} cases")
     mcases = []
     for c, (status, code, hooks) in zip(cases, results):
         key, ttl, warm = W.app_cfg[c["app"]]
         ni = _norm_ident(c["ident"])
         ident = copt(None if ni is None else f"({lit(ni[0])}, {lit(ni[1])})")
-        tok = lambda t: copt(None if t is None else (names[t] if t in names else lit(t)))  # noqa: E731
-        inp = f"(({ref(key)}, {cZ(ttl)}, {cZ(c['now1'])}, {cZ(c['now2'])}), ({cbool(warm)}, {ident}, {cbool(c['cancel'])}), ({tok(c['cur'])}, {tok(c['call'])}))"
+        def tok(t: bytes | None, sym: Any) -> str:
+            if t is None:
+                return "None"
+            if sym is not None and sym[1] in names:
+                return f"(Some ({sym[0]} {names[sym[1]]} {sym[2]} {sym[3]}))" if sym[0] != "TTrunc" else f"(Some (TTrunc {names[sym[1]]} {sym[2]}))"
+            return f"(Some (TLit {names[t] if t in names else lit(t)}))"
+
+        inp = f"(({ref(key)}, {cZ(ttl)}, {cZ(c['now1'])}, {cZ(c['now2'])}), ({cbool(warm)}, {ident}, {cbool(c['cancel'])}), ({tok(c['cur'], c.get('cur_sym'))}, {tok(c['call'], c.get('call_sym'))}))"
         out = f"({status}, {code}, {lit(bytes(hooks))})"
         mcases.append((inp, out))
-    ok, bad, clog = ctx.coq_mismatches(header, "run_case T_aead T_zstd T_sha T_cache gen_b64_canonical", "eqb3", mcases, "case_in", "N * N * list N", shard=300)
+    ok, bad, clog = ctx.coq_mismatches(header, "run_x gen_b64_canonical", "eqb3", mcases, "case_x", "N * N * list N", shard=1200)
     ctx.count("model_cases", len(mcases))
     ctx.obligation("correspondence:M_Token.run_case", "correspondence", ok and not bad, clog if not ok else f"{len(bad)} of {len(mcases)} cases disagree")
     for i in bad[:3]:
         c = cases[i]
-        shown = ctx.coq_show(header, f"run_case T_aead T_zstd T_sha T_cache gen_b64_canonical {mcases[i][0]}")
+        shown = ctx.coq_show(header, f"run_x gen_b64_canonical {mcases[i][0]}")
         ctx.violation(
             "model-impl-disagree",
             "implementation and model decide differently",
